@@ -1,4 +1,6 @@
 -- Root of the theorem library: property theorems (Theorems/Cxx.lean) and helper lemmas.
 import Theorems.Lemmas.U32
 import Theorems.Lemmas.Session
+import Theorems.Lemmas.Credit
 import Theorems.C07
+import Theorems.C08
